@@ -3,13 +3,15 @@ from checks.common import *
 
 LEVEL = "proof"
 RULE = ("pairs of stretching instances at registration and login from {absent, explicit default, reverse, xor-constant, Argon2 "
-        "default-size-reduced and another cost} x fail-always; oracle: equal instances log in, different ones fail with "
+        "default-size-reduced, another cost, and instances that differ in algorithm (i/d/id), version (0x10/0x13) or secret key only} x fail-always; oracle: equal instances log in, different ones fail with "
         "InvalidLogin, absent == explicit default, exactly one call per finish step whose argument is the OPRF output (the model's "
         "prediction of the call log is compared byte for byte), a failing function surfaces as KsfError. Argon2 is an oracle: the "
         "crate's logged (input, output) pairs are replayed by the model as a finite table. distinct = distinct (suite, op, args)")
 ASSUMPTIONS = ["Argon2 itself is not modelled (table replay); 'bound' holds up to explicit collision events (Bad)"]
 
 INST = ["~", "D", "R", "X5a", "A8,1,1", "A16,2,1"]
+# Argon2 instances that differ from A8,1,1 in something other than the cost numbers: algorithm, version, secret key
+ARGON_VARIANTS = ["A8,1,1,i", "A8,1,1,d", "A8,1,1,id,16", "A8,1,1,id,19,736563726574206b6579", "A8,1,1,id,19,6f74686572"]
 
 
 def table_for(ctx, tag, ksf, flog):
@@ -76,6 +78,15 @@ def cases(tier, seed):
                 if tier == "quick" and a.startswith("A") and b.startswith("A") and a != b:
                     continue
                 # differing Argon2 instances: the model cannot know the second table -> compare verdicts only
+                out.append(dict(script=pair, suite=s, seed=seed * 100000 + si * 100 + k, mode="pattern+err", params=dict(k1=a, k2=b)))
+                k += 1
+        vs_ = ARGON_VARIANTS if tier == "thorough" else [ARGON_VARIANTS[(si + seed + j) % len(ARGON_VARIANTS)] for j in (0, 2)]
+        for v in vs_:
+            for (a, b) in (("A8,1,1", v), (v, "A8,1,1"), (v, v)):
+                out.append(dict(script=pair, suite=s, seed=seed * 100000 + si * 100 + k, mode="pattern+err", params=dict(k1=a, k2=b)))
+                k += 1
+        if tier == "thorough":
+            for (a, b) in ((ARGON_VARIANTS[0], ARGON_VARIANTS[1]), (ARGON_VARIANTS[3], ARGON_VARIANTS[4]), (ARGON_VARIANTS[2], ARGON_VARIANTS[0])):
                 out.append(dict(script=pair, suite=s, seed=seed * 100000 + si * 100 + k, mode="pattern+err", params=dict(k1=a, k2=b)))
                 k += 1
         out.append(dict(script=failing, suite=s, seed=seed * 100000 + si * 100 + 99, mode="pattern+err", params={}))
